@@ -214,6 +214,13 @@ def gen(tier, rng):
     for fam in ("token", "introspection"):
         out += [(l, "direct-decode/" + lab) for (l, lab) in D.gen_decode(fam, tier, rng, n_docs=(150 if tier == "quick" else 4000)) if l.split(" ")[2] == "E"]
     out += source_literal_http(KINDS, rng)
+    for kind in KINDS:
+        for status in (401, 403, 400, 500, 302, 429):
+            for ext in (False, True):
+                for ct in CTS[:6]:
+                    for body in (b"", b"{}"):
+                        i += 1
+                        out.append((http_line(variants[i % 2], kind, ext, status, ct, body), "empty-error-reply"))
     # requests that cannot be built (an endpoint URL the http crate does not take: too long, no authority): an error value,
     # no HTTP call, no panic - for every kind
     from gen import reqs as R
